@@ -138,8 +138,9 @@ func (b *EventBus) PublishEventNewBlock(data EventDataNewBlock) error {
 	resultEvents := append(data.ResultBeginBlock.Events, data.ResultEndBlock.Events...)
 	events := b.validateAndStringifyEvents(resultEvents, b.Logger.With("block", data.Block.StringShort()))
 
-	// add predefined new block event
-	events[EventTypeKey] = append(events[EventTypeKey], EventNewBlock)
+	// add predefined new block event; an application event that uses the
+	// reserved key must not make the message look like another kind of event
+	events[EventTypeKey] = []string{EventNewBlock}
 
 	return b.pubsub.PublishWithEvents(ctx, data, events)
 }
@@ -152,8 +153,9 @@ func (b *EventBus) PublishEventNewBlockHeader(data EventDataNewBlockHeader) erro
 	// TODO: Create StringShort method for Header and use it in logger.
 	events := b.validateAndStringifyEvents(resultTags, b.Logger.With("header", data.Header))
 
-	// add predefined new block header event
-	events[EventTypeKey] = append(events[EventTypeKey], EventNewBlockHeader)
+	// add predefined new block header event (overwrites application events
+	// with the reserved key, see PublishEventNewBlock)
+	events[EventTypeKey] = []string{EventNewBlockHeader}
 
 	return b.pubsub.PublishWithEvents(ctx, data, events)
 }
@@ -180,9 +182,9 @@ func (b *EventBus) PublishEventTx(data EventDataTx) error {
 	events := b.validateAndStringifyEvents(data.Result.Events, b.Logger.With("tx", data.Tx))
 
 	// add predefined compositeKeys
-	events[EventTypeKey] = append(events[EventTypeKey], EventTx)
-	events[TxHashKey] = append(events[TxHashKey], fmt.Sprintf("%X", Tx(data.Tx).Hash()))
-	events[TxHeightKey] = append(events[TxHeightKey], fmt.Sprintf("%d", data.Height))
+	events[EventTypeKey] = []string{EventTx}
+	events[TxHashKey] = []string{fmt.Sprintf("%X", Tx(data.Tx).Hash())}
+	events[TxHeightKey] = []string{fmt.Sprintf("%d", data.Height)}
 
 	return b.pubsub.PublishWithEvents(ctx, data, events)
 }
